@@ -48,7 +48,7 @@ MUST_REACH = ["lena/flow/selectors.py:Selector.__init__", "lena/flow/selectors.p
 MUST_COUNT = ["selector_evaluations", "reference_leaf_raises", "swallowed_by_raise_on_error_false",
               "filter_runs", "selectcontext_evaluations", "groupby_fills", "groupby_pairs_judged",
               "groupby_configs_accepted", "groupby_configs_rejected"]
-MIN_NONTRIVIAL = {"quick": 1500, "thorough": 20000}
+MIN_NONTRIVIAL = {"quick": 1500, "thorough": 50000}
 LEVEL_TEXT = ("Exhaustive over depth-1 selector specifications and over all 162 group_by/merge "
               "assignments of the key set {'', a, b, a.c, a.c.d}; seeded random exploration of "
               "selector nestings to depth 3 and of context flows. Each real evaluation is "
@@ -58,9 +58,9 @@ LEVEL_NOTE = ("Trusts the 60-line reference evaluator and the 40-line partition 
               "leaves use the real contains as their definition.")
 TECHNIQUE = "reference evaluator + reference partition on seeded/enumerated specifications"
 
-NSEL = {"quick": 1800, "thorough": 40000}
+NSEL = {"quick": 1800, "thorough": 100000}
 NSELCTX = {"quick": 60, "thorough": 1500}
-NGROUP_FLOWS = {"quick": 6, "thorough": 120}     # flows per group_by/merge assignment
+NGROUP_FLOWS = {"quick": 6, "thorough": 300}     # flows per group_by/merge assignment
 
 STRS = ["a", "b", "a.b", "a.c.d", "b.x", "a.b.c", "zz", "a.5"]
 CLSS = ["int", "str", "float", "tuple", "list", "Marker", "CallableCls", "dict"]
